@@ -411,13 +411,21 @@ def cases(tier):
     return out
 
 
+def interp_cases(tier):
+    """interpreted pass (NUMBA_DISABLE_JIT=1): every 40th selection on two grids"""
+    return [{"kind": "select", "grid": "mixedpatch", "tier": "quick", "hist": 0, "hk": 1, "cap": 40}, {"kind": "select", "grid": "mpas:pyr5", "tier": "quick", "hist": 0, "hk": 1, "cap": 40}]
+
+
 def selftest_case(tier):
     return {"kind": "select", "grid": "cube", "tier": "quick", "hist": 0, "hk": 1}
 
 
 def warmup(tier):
     run_case({"kind": "select", "grid": "ships:pyr5", "tier": "quick", "hist": 0, "hk": 1, "cap": 40})
-    run_case({"kind": "sched", "mesh": "single3", "tier": "quick"})
+    import os
+
+    if os.environ.get("NUMBA_DISABLE_JIT") != "1":  # the schedule explorer instruments the jitted kernel's Python body itself
+        run_case({"kind": "sched", "mesh": "single3", "tier": "quick"})
 
 
 def worker_init():
